@@ -740,6 +740,12 @@ static void do_loop_cond_number () {
  *  The effect is that all called efuns knows that they won't have destructed objects as
  *  arguments.
  */
+#ifdef NEOLITH_VERIF
+/* verification hooks (H1): executed-instruction counter and fault-injection countdown */
+long verif_insn_count = 0;
+long verif_fault_countdown = 0;
+#endif
+
 void eval_instruction (const char *p) {
 
   int i, n;
@@ -755,6 +761,11 @@ void eval_instruction (const char *p) {
   while (1)
     {
       instruction = EXTRACT_UCHAR (pc++);
+#ifdef NEOLITH_VERIF
+      verif_insn_count++;
+      if (verif_fault_countdown > 0 && --verif_fault_countdown == 0)
+        error ("*verif fault");
+#endif
       if (!--eval_cost)
         {
           /* [NEOLITH-EXTENSION] allows eval_instruction without current_object */
